@@ -143,6 +143,8 @@ class Interp:
             return B(tok.split()[1])
         if tok == "const ()":
             return ()
+        if tok.startswith('const "') or tok.startswith("const b\""):
+            return Obj("str-literal")
         if tok.startswith("const ZeroSized"):
             return Obj("zero-sized")
         name = tok[6:]
@@ -188,6 +190,8 @@ class Interp:
 
     def operand(self, env, tok):
         tok = tok.strip()
+        if tok.startswith("no_retag "):
+            tok = tok[9:]
         if tok.startswith("const "):
             return self.const(tok)
         if tok.startswith("copy ") or tok.startswith("move "):
@@ -196,6 +200,8 @@ class Interp:
             return self.place_get(env, tok[5:])
         if tok.startswith("&"):
             return self.place_get(env, tok[1:])
+        if "::" in tok and not tok.startswith("(") and not tok.startswith("_"):
+            return Obj("fn-item", {"path": tok})
         return self.place_get(env, tok)
 
     # ------------------------------------------------------------ rvalues
@@ -207,6 +213,10 @@ class Interp:
             op = m.group(1)
             args = [self.operand(env, a) for a in split_args(m.group(2))]
             return self.binop(op, args)
+        m = re.match(r"^(?:PtrMetadata|Len)\((.*)\)$", rhs)
+        if m:
+            v = self.operand(env, m.group(1))
+            return v.fields["len"]
         if rhs.startswith("discriminant("):
             v = self.place_get(env, rhs[13:-1])
             return ("discr", v)
@@ -217,7 +227,8 @@ class Interp:
         if m and not rhs.startswith("const"):
             args = [self.operand(env, a) for a in split_args(m.group(3))]
             return Enum(m.group(1), m.group(2), args[0] if len(args) == 1 else tuple(args))
-        m = re.match(r"^([\w:]+) \{ (.*) \}$", rhs) or re.match(r"^([\w:<>]+) \{ (.*) \}$", rhs)
+        m = re.match(r"^([\w:]+) \{ (.*) \}$", rhs) or re.match(r"^([\w:<>]+) \{ (.*) \}$", rhs) \
+            or re.match(r"^(\{closure@[^}]*\}) \{ (.*) \}$", rhs)
         if m:
             fields = {}
             for i, f in enumerate(split_args(m.group(2))):
@@ -273,6 +284,9 @@ class Interp:
         f = re.sub(r"::<[^>]*>", "", fname)
         if f in self.extra_intrinsics:
             return self.extra_intrinsics[f](self, args, pc)
+        for k_, fn_ in self.extra_intrinsics.items():
+            if k_.startswith("re:") and re.search(k_[3:], fname):
+                return fn_(self, args, pc, fname)
         if f.endswith("saturating_sub"):
             a, b = args
             return [(BV(a.w, f"(ite (bvult {a.s} {b.s}) (_ bv0 {a.w}) (bvsub {a.s} {b.s}))"), [])]
@@ -320,7 +334,8 @@ class Interp:
             sub = Interp(self.mir, self.extra_intrinsics, self.max_paths)
             sub.decls, sub.nfresh = self.decls, self.nfresh
             alts = [(o if f.endswith("and_then") else Enum("Option", "Some", o), spc)
-                    for spc, o in sub.run(cl[0], [Obj("closure"), v.payload])]
+                    for spc, o in sub.run(cl[0], [args[1] if len(args) > 1 and isinstance(args[1], Obj) else Obj("closure"),
+                                                  v.payload])]
             self.nfresh = sub.nfresh
             return alts
         if f.endswith("ok_or"):
@@ -339,6 +354,13 @@ class Interp:
             elif "RangeTo" in name:
                 bad = f"(bvugt {end.s} {ln.s})"
                 newlen = end
+            elif "RangeFrom" in name:
+                bad = f"(bvugt {end.s} {ln.s})"
+                newlen = BV(64, f"(bvsub {ln.s} {end.s})")
+            elif "Range" in name:
+                start, end = rng.fields[0], rng.fields[1]
+                bad = f"(or (bvugt {start.s} {end.s}) (bvugt {end.s} {ln.s}))"
+                newlen = BV(64, f"(bvsub {end.s} {start.s})")
             else:
                 raise ValueError("index " + name)
             return [(Obj("slice", {"len": newlen}), [f"(not {bad})"]), (Panic("slice index out of range"), [bad])]
